@@ -102,7 +102,7 @@ def run(ctx):
         res = [("assert", f, cfg, "") for f in sorted(set(fails))]
         if hard:
             if len(lst) == 1 or ncomp[0] > 30 * len(chunks):
-                res.append(("hard", "c%d rejected" % lst[0]["i"], cfg, "\n".join(errs[:4])))
+                res.append(("hard", "c%d rejected" % lst[0]["i"], cfg, "\n".join(hard[:4])))
             else:
                 h = len(lst) // 2
                 return compile_chunk((lst[:h], cfg)) + compile_chunk((lst[h:], cfg))
